@@ -200,6 +200,13 @@ func (d Damage) Apply(names []string, state map[string][]byte) {
 		cur = append(cur, rnd(d.Len)...)
 	case "appendzeros":
 		cur = append(cur, make([]byte, d.Len)...)
+	case "slide":
+		off := clamp(d.Off, len(cur))
+		n := clamp(d.Len, len(cur)-off)
+		cur = append(cur[:off:off], cur[off+n:]...)
+		at := clamp(d.Other, len(cur))
+		ins := rnd(n)
+		cur = append(cur[:at:at], append(ins, cur[at:]...)...)
 	case "crcforge":
 		// replace the window [Off, Off+Len) by different bytes with the same CRC-32 (Len >= 8)
 		off := d.Off
@@ -236,6 +243,8 @@ type Case struct {
 	ForeignVol  bool       `json:"foreign_vol,omitempty"` // a volume of another recovery set named <base>.zforeign.par2
 	DupVol      bool       `json:"dup_vol,omitempty"`     // a copy of the first recovery file named <base>.dup.par2
 	CorruptVol  int        `json:"corrupt_vol,omitempty"` // 1+index of a recovery file in which one byte is flipped (0 = none)
+	KeepVolsWith []int      `json:"keep_vols_with,omitempty"` // if set: every recovery file that holds none of these exponents is deleted
+	SymlinkVols bool       `json:"symlink_vols,omitempty"`  // the recovery files are moved to a store directory and symlinked back
 	RmDirOf     int        `json:"rmdir_of,omitempty"`     // 1+index of a protected file whose sub-directory is removed altogether after the damage (its rewrite must fail)
 	StaleNRec   int        `json:"stale_nrec,omitempty"`   // Create is first run with this many blocks (same set ID), leaving stale, partly overlapping volumes behind
 	SiblingVols bool       `json:"sibling_vols,omitempty"` // recovery files replaced by those of a sibling set with the same set ID (same names, lengths, first 16 KiB; different tails)
@@ -386,10 +395,40 @@ func Run(c Case, skipRepair bool) *Obs {
 			del[v%len(o.VolFiles)] = true
 		}
 	}
+	if len(c.KeepVolsWith) > 0 {
+		for i, v := range o.VolFiles {
+			keep := false
+			for _, p := range par2ref.ScanTolerant(o.Outputs[v]) {
+				if p.Type == par2ref.TypeRecvSlic {
+					e, _, _ := par2ref.ParseRecovery(p.Body)
+					for _, w := range c.KeepVolsWith {
+						if int(e) == w {
+							keep = true
+						}
+					}
+				}
+			}
+			if !keep {
+				del[i] = true
+			}
+		}
+	}
 	for i, v := range o.VolFiles {
 		if del[i] {
 			os.Remove(filepath.Join(dir, v))
 			continue
+		}
+	}
+	if c.SymlinkVols {
+		store := filepath.Join(o.Dir, "store")
+		os.MkdirAll(store, 0o755)
+		for i, v := range o.VolFiles {
+			if del[i] {
+				continue
+			}
+			if os.Rename(filepath.Join(dir, v), filepath.Join(store, v)) == nil {
+				os.Symlink(filepath.Join(store, v), filepath.Join(dir, v))
+			}
 		}
 	}
 	if c.SiblingVols {
@@ -511,11 +550,40 @@ func (o *Obs) AllOriginal(snap fsx.Snap) (bool, string) {
 
 var nameCorpus = []string{"a.dat", "b file.bin", "docs\\notes.txt", "sub/c.txt", "sub/deep dir/d", "e-1_2.tar.gz", "dir two/f.F", "g", "h~#(1).x", "sub/i.par2.txt", "J.DAT", "k.k.k", "sub2/l"}
 
+var siblingSuffixes = []string{".tmp", "~", ".bak", ".new", ".part", ".1", ".swp", ".orig"}
+
+// withSiblings sometimes replaces names by "temp-file style" siblings or case variants of other names of the set
+// (N and N.tmp, N and its lower/upper-case spelling).
+func withSiblings(t *rapid.T, names []string) []string {
+	if len(names) < 2 || rapid.IntRange(0, 4).Draw(t, "siblings") != 0 {
+		return names
+	}
+	out := append([]string{}, names...)
+	k := rapid.IntRange(1, len(out)-1).Draw(t, "sibidx")
+	base := out[rapid.IntRange(0, k-1).Draw(t, "sibof")]
+	var cand string
+	switch rapid.IntRange(0, 3).Draw(t, "sibkind") {
+	case 0:
+		cand = strings.ToLower(base)
+	case 1:
+		cand = strings.ToUpper(base)
+	default:
+		cand = base + rapid.SampledFrom(siblingSuffixes).Draw(t, "sibsuffix")
+	}
+	for _, n := range out {
+		if n == cand {
+			return names
+		}
+	}
+	out[k] = cand
+	return out
+}
+
 // GenNames draws n distinct protected names.
 func GenNames(t *rapid.T, n int) []string {
 	if n <= len(nameCorpus) {
 		perm := rapid.Permutation(nameCorpus).Draw(t, "names")
-		return perm[:n]
+		return withSiblings(t, perm[:n])
 	}
 	out := append([]string{}, nameCorpus...)
 	for i := len(nameCorpus); i < n; i++ {
